@@ -30,7 +30,8 @@ for d in "$VERIF"/seeded/${1:-C*}/${2:-*}/; do
   q=$("$VERIF"/selftest/run.sh "$d/patch.diff" "$id" quick --skip-suite 2>&1 </dev/null | grep SELFTEST | tail -1)
   case "$q" in
     *caught*) echo "SEEDED $id/$n demo=$demo quick=caught";;
-    *) t=$("$VERIF"/selftest/run.sh "$d/patch.diff" "$id" thorough --skip-suite 2>&1 </dev/null | grep SELFTEST | tail -1)
+    *) if [ -n "${SEEDED_QUICK_ONLY:-}" ]; then echo "SEEDED $id/$n demo=$demo quick=MISSED"; continue; fi
+       t=$("$VERIF"/selftest/run.sh "$d/patch.diff" "$id" thorough --skip-suite 2>&1 </dev/null | grep SELFTEST | tail -1)
        case "$t" in *caught*) echo "SEEDED $id/$n demo=$demo quick=MISSED thorough=caught";; *) echo "SEEDED $id/$n demo=$demo quick=MISSED thorough=MISSED ($t)";; esac;;
   esac
 done
